@@ -13,18 +13,17 @@ penalties; `ssdriver c02` builds the flat network with the model's own `FlatNet.
 import json, os, re
 import vlib
 
-MODEL = vlib.REPO / "model" / "en-us"
-AUDIO = vlib.REPO / "tests" / "data" / "goforward.raw"
+LANGS = {"en-us": {"audio": "tests/data/goforward.raw"}, "fr-fr": {"audio": "tests/data/goforward_fr.raw"}}
 MARGIN = 4096          # slack kept between the measured score spread and |beam|
 
 
 # ----------------------------------------------------------------------------------------------
 # dictionary
 
-def load_dict():
+def load_dict(lang="en-us"):
     """base word -> [(spelling, [phones])] (base first, then alternates in file order)"""
     d = {}
-    for line in (MODEL / "dict.txt").read_text().split("\n"):
+    for line in (vlib.REPO / "model" / lang / "dict.txt").read_text().split("\n"):
         if not line or line.startswith(";;"):
             continue
         w = line.split()
@@ -41,8 +40,12 @@ CORE = ["go", "forward", "ten", "meters", "a", "i", "oh", "uh", "e", "mm", "sh",
         "an", "and", "on", "or", "are", "eye", "owe", "awe", "two", "do", "so", "no", "me", "we", "he"]
 
 
-def pick_vocab(rng, dic, n_extra):
-    words = [w for w in CORE if w in dic]
+CORE_FR = ["avance", "recule", "de", "dix", "un", "deux", "trois", "quatre", "cinq", "six", "sept", "huit", "neuf", "a", "au", "eau",
+           "et", "en", "on", "ou", "y", "il", "la", "le", "tu", "va"]
+
+
+def pick_vocab(rng, dic, n_extra, lang="en-us"):
+    words = [w for w in (CORE if lang == "en-us" else CORE_FR) if w in dic]
     pool = [w for w, v in dic.items() if len(v[0][1]) <= 6 and len(w) > 1]
     pool.sort()
     while n_extra > 0:
@@ -171,12 +174,12 @@ def min_phones(dic, n, start, final, tr):
     return d[final]
 
 
-def gen_case(rng, dic, vocab, cid, tier, beams=None, frames=None):
+def gen_case(rng, dic, vocab, cid, tier, beams=None, frames=None, lang="en-us"):
     V = [rng.choice(vocab) for _ in range(rng.range(3, 8))]
     if rng.chance(0.5):
-        V += [w for w in ("go", "forward", "ten", "meters") if rng.chance(0.7)]
+        V += [w for w in (("go", "forward", "ten", "meters") if lang == "en-us" else ("avance", "de", "dix", "recule")) if rng.chance(0.7)]
     if rng.chance(0.5):
-        V += [rng.choice(by_len(dic, vocab, 1)), rng.choice(by_len(dic, vocab, 2))]
+        V += [rng.choice(by_len(dic, vocab, 1) or vocab), rng.choice(by_len(dic, vocab, 2) or vocab)]
     n, s, f, tr, shape = rng.weighted(SHAPES)(rng, dic, V)
     cfg = {"wip": rng.choice(["0.65", "0.65", "1.0", "0.2", "0.001"]), "pip": rng.choice(["1.0", "1.0", "0.5", "0.05"]),
            "lw": rng.choice(["6.5", "6.5", "1.0", "9.5", "2.0"]), "silprob": rng.choice(["0.005", "0.005", "0.1", "1e-5"]),
@@ -188,19 +191,20 @@ def gen_case(rng, dic, vocab, cid, tier, beams=None, frames=None):
         cfg.update({"beam": "0", "pbeam": "0", "wbeam": "0"})
     else:
         cfg.update({"beam": "1e-48", "pbeam": "1e-48", "wbeam": "7e-29"})
-    total = AUDIO.stat().st_size // 2
+    apath = LANGS[lang]["audio"]
+    total = (vlib.REPO / apath).stat().st_size // 2
     nfr = frames if frames is not None else rng.range(5, 150)
     need = 3 * min_phones(dic, n, s, f, tr) + 2      # three frames per phone: below that no alignment exists
     if frames is None and nfr < need < 150 and rng.chance(0.85):
         nfr = rng.range(need, 150)
     if nfr >= 270:
-        audio = ("file", "tests/data/goforward.raw", 0, total)
+        audio = ("file", apath, 0, total)
     elif rng.chance(0.8):
         ns = nfr * 160 + 250
-        audio = ("file", "tests/data/goforward.raw", rng.below(max(1, total - ns)), ns)
+        audio = ("file", apath, rng.below(max(1, total - ns)), ns)
     else:
         audio = ("noise", rng.below(1 << 30), nfr * 160 + 250, rng.choice([30, 300, 3000]))
-    return {"id": cid, "shape": shape, "beams": beams, "cfg": cfg, "n_state": n, "start": s, "final": f,
+    return {"id": cid, "lang": lang, "shape": shape, "beams": beams, "cfg": cfg, "n_state": n, "start": s, "final": f,
             "trans": [list(t) for t in tr], "audio": list(audio)}
 
 
@@ -261,7 +265,8 @@ def parse_driver(out):
             continue
         d = {w[i]: w[i + 1] for i in range(2, len(w) - 1, 2)}
         r = {"opt": None if d["opt"] == "none" else int(d["opt"]),
-             "optef": None if d.get("optef", "none") == "none" else int(d["optef"]), "T": int(d["T"]), "states": int(d["states"]),
+             "optef": None if d.get("optef", "none") == "none" else int(d["optef"]),
+             "empty": None if d.get("empty", "none") == "none" else int(d["empty"]), "T": int(d["T"]), "states": int(d["states"]),
              "edges": int(d["edges"]), "spread": int(d["spread"]), "beam": int(d["beam"]), "align": d.get("align", "-"),
              "minval": None if d["minval"] == "none" else int(d["minval"])}
         for k in ("consts", "data", "fillerflags", "closed", "monotone", "skipcons", "agree", "pathok", "labels"):
@@ -285,7 +290,10 @@ def run_driver_retry(text, timeout):
 def run_cases(binp, dictfile, cases, timeout=1200):
     text = "".join(case_text(c) for c in cases)
     binp = vlib.build_harness("h_c02")     # other runs may have pruned the build cache in the meantime
-    rc, out, err = vlib.run_bin(binp, [str(MODEL), str(dictfile)], stdin_text=text, timeout=timeout)
+    lang = cases[0].get("lang", "en-us")       # one acoustic model per harness process
+    assert all(c.get("lang", "en-us") == lang for c in cases)
+    df = dictfile[lang] if isinstance(dictfile, dict) else dictfile
+    rc, out, err = vlib.run_bin(binp, [str(vlib.REPO / "model" / lang), str(df)], stdin_text=text, timeout=timeout)
     rc2, mout, merr = run_driver_retry(out, timeout)
     return (rc, parse_harness(out), err), (rc2, parse_driver(mout), merr)
 
@@ -304,10 +312,21 @@ def verdict(case, h, m):
     wide = case["beams"] == "wide"
     floor = m["minval"] is None or m["minval"] > -536870912 + 33023
     regime = wide and m["monotone"] and m["skipcons"] and floor and m["spread"] + MARGIN < -m["beam"]
+    if cs is not None and h["exit_frame"] != h["T"] - 1:
+        # no history entry in the final frame (every word exit pruned, or the utterance is shorter than any sentence while
+        # the grammar has a null path start -> final): fsg_search_find_exit falls back to the most recent frame that has
+        # one — possibly the dummy entries of frame -1 — and the reported score covers frames 0..exit_frame only
+        ef = h["exit_frame"]
+        covered = m["empty"] if ef < 0 else m["optef"]
+        if covered is None or cs > covered or (regime and (ef >= 0 or cs != covered)):
+            return "violation-above", (f"reported {cs} (history entry of frame {ef}) vs optimum {covered} over the "
+                                       f"{ef + 1} frames it covers; optimum over all {h['T']} frames: {opt}")
+        if opt is None or cs > opt:
+            return "finding-partial", (f"reported {cs} is the score of an alignment of frames 0..{ef} only "
+                                       f"(utterance has {h['T']}); optimum over the whole utterance: {opt}")
+        return "ok-le-partial", None
     if regime:
         if cs == opt:
-            if cs is not None and h["exit_frame"] != h["T"] - 1:
-                return "violation-exit-frame", f"score taken from frame {h['exit_frame']} of {h['T']}"
             return ("ok-equal" if cs is not None else "ok-none"), None
         if cs is None:
             return "violation-missed", f"search reports no result, optimum {opt}"
@@ -316,17 +335,6 @@ def verdict(case, h, m):
         return "violation-below", f"reported {cs} < optimum {opt} although nothing can have been pruned"
     if cs is None:
         return "ok-none", None
-    if h["exit_frame"] != h["T"] - 1:
-        # pruning removed every word exit of the last frame(s): fsg_search_find_exit falls back to the last frame that
-        # has a history entry, so the reported score covers frames 0..exit_frame only
-        oe = m["optef"]
-        if oe is None or cs > oe:
-            return "violation-above", (f"reported {cs} (history entry of frame {h['exit_frame']}) > optimum {oe} over the "
-                                       f"{h['exit_frame'] + 1} frames it covers")
-        if opt is None or cs > opt:
-            return "finding-partial", (f"reported {cs} is the score of an alignment of frames 0..{h['exit_frame']} only "
-                                       f"(utterance has {h['T']}); it exceeds the optimum {opt} over the whole utterance")
-        return "ok-le-partial", None
     if opt is None or cs > opt:
         return "violation-above", f"reported {cs} > optimum {opt}: not the score of any legal alignment"
     return "ok-le", None
@@ -365,7 +373,7 @@ def shrink(c, binp, dictfile, case, kind):
     return cur
 
 
-KEY_PARTIAL = "partial-result-after-pruned-final-frame"
+KEY_PARTIAL = "partial-result-no-history-entry-in-final-frame"
 
 
 def is_known(key):
@@ -385,7 +393,7 @@ def report(c, binp, dictfile, dic, vocab, case, kind, detail, finding_key=None):
         k2, d2 = verdict(small, h, m)
     used = sorted({t[3] for t in small["trans"] if t[3]})
     c.violation({"kind": kind, "what": d2 or detail, "case": small,
-                 "dictionary": {sp: ph for b in used for sp, ph in dic.get(b, [])},
+                 "dictionary": {sp: ph for b in used for sp, ph in dic[small.get("lang", "en-us")].get(b, [])},
                  "c_score": h and h["score"], "c_hyp": h and h["hyp"], "c_segments": h and h["segs"],
                  "c_exit_frame": h and h["exit_frame"], "frames": h and h["T"],
                  "model_optimum": m and m.get("opt"), "model_optimal_alignment": m and m.get("align"),
@@ -557,12 +565,13 @@ def check(c):
     if not c.lean_obligations():
         return
     binp = vlib.build_harness("h_c02")
-    dic = load_dict()
-    vocab = pick_vocab(c.rng, dic, 40 if c.tier == "quick" else 200)
-    dictfile = c.scratch / "c02.dict"
-    write_dict(dictfile, dic, vocab)
+    dic, vocab, dictfile = {}, {}, {}
+    for lang in LANGS:
+        dic[lang] = load_dict(lang)
+        vocab[lang] = pick_vocab(c.rng, dic[lang], (40 if c.tier == "quick" else 200) if lang == "en-us" else 25, lang)
+        dictfile[lang] = c.scratch / f"c02-{lang}.dict"
     stats = {"shapes": {}, "verdicts": {}, "beams": {}, "frames": [], "states": [], "edges": [], "spread_max": 0,
-             "audio": {}, "cfg": {}, "hmm_skip": {}, "hmm_active": {}, "hist_sizes": {}}
+             "audio": {}, "cfg": {}, "hmm_skip": {}, "hmm_active": {}, "hist_sizes": {}, "langs": {}}
     unit_correspondence(c, stats)     # a divergence is recorded; the whole-utterance cases below still look for a failing input
     cases = []
     # corpus first
@@ -570,22 +579,32 @@ def check(c):
         obj = json.loads(f.read_text())
         case = obj["case"]
         case["id"] = "corpus-" + f.stem
+        lang = case.setdefault("lang", "en-us")
         for b in {t[3] for t in case["trans"] if t[3]}:
-            if b not in vocab and b in dic:
-                vocab.append(b)
+            if b not in vocab[lang] and b in dic[lang]:
+                vocab[lang].append(b)
         cases.append(case)
-    write_dict(dictfile, dic, vocab)
+    for lang in LANGS:
+        write_dict(dictfile[lang], dic[lang], vocab[lang])
     ncorp = len(cases)
     ngen = 150 if c.tier == "quick" else 3000
     for i in range(ngen):
-        cases.append(gen_case(c.rng, dic, vocab, f"g{i}", c.tier))
+        cases.append(gen_case(c.rng, dic["en-us"], vocab["en-us"], f"g{i}", c.tier))
+    for i in range(20 if c.tier == "quick" else 300):      # second acoustic model / phone set / dictionary
+        cases.append(gen_case(c.rng, dic["fr-fr"], vocab["fr-fr"], f"fr{i}", c.tier, lang="fr-fr"))
     if c.tier == "thorough":
         for i in range(60):   # full recording, default and wide beams
-            cases.append(gen_case(c.rng, dic, vocab, f"full{i}", c.tier, beams=("default" if i % 2 else "wide"), frames=278))
+            cases.append(gen_case(c.rng, dic["en-us"], vocab["en-us"], f"full{i}", c.tier, beams=("default" if i % 2 else "wide"), frames=278))
+    # batches never mix acoustic models
+    cases.sort(key=lambda cs: (not cs["id"].startswith("corpus"), cs.get("lang", "en-us") != "en-us"))
     allok, nontrivial, nviol, nfind = True, set(), 0, 0
     B = 30
-    for b0 in range(0, len(cases), B):
-        batch = cases[b0:b0 + B]
+    batches = []
+    for cs in cases:
+        if not batches or len(batches[-1]) >= B or batches[-1][0].get("lang", "en-us") != cs.get("lang", "en-us"):
+            batches.append([])
+        batches[-1].append(cs)
+    for batch in batches:
         (rc, hs, err), (rc2, ms, merr) = run_cases(binp, dictfile, batch)
         if rc2 != 0:
             c.oblige("model driver runs", False, merr[-800:])
@@ -597,6 +616,7 @@ def check(c):
             stats["shapes"][case["shape"]] = stats["shapes"].get(case["shape"], 0) + 1
             stats["beams"][case["beams"]] = stats["beams"].get(case["beams"], 0) + 1
             stats["audio"][case["audio"][0]] = stats["audio"].get(case["audio"][0], 0) + 1
+            stats["langs"][case.get("lang", "en-us")] = stats["langs"].get(case.get("lang", "en-us"), 0) + 1
             for k in ("wip", "pip", "lw", "silprob", "fsgusefiller", "fsgusealtpron"):
                 kv = f"{k}={case['cfg'].get(k)}"
                 stats["cfg"][kv] = stats["cfg"].get(kv, 0) + 1
@@ -644,7 +664,7 @@ def check(c):
                   "corpus_cases": ncorp, "verdicts": stats["verdicts"], "grammar_shapes": stats["shapes"], "beams": stats["beams"],
                   "audio_kinds": stats["audio"], "config_values": stats["cfg"], "frames": hist(stats["frames"]), "network_states": hist(stats["states"]),
                   "network_edges": hist(stats["edges"]), "max_score_spread_vs_beam": [stats["spread_max"], 524288],
-                  "vocabulary_size": len(vocab),
+                  "vocabulary_size": {k: len(v) for k, v in vocab.items()}, "acoustic_models": stats["langs"],
                   "unit_ops": stats.get("unit_ops"), "hmm_ops_also_checked_against_max_plus": stats.get("hmm_ideal_checked"),
                   "hmm_skip_flags_(0->2,1->3)": {str(k): v for k, v in stats["hmm_skip"].items()},
                   "hmm_active_states_(0,1,2)": {str(k): v for k, v in stats["hmm_active"].items()},
@@ -659,8 +679,9 @@ def replay(c, path):
     binp = vlib.build_harness("h_c02")
     obj = json.loads(open(path).read())
     case = obj["case"]
-    dic = load_dict()
-    vocab = sorted({t[3] for t in case["trans"] if t[3]} | {"go"})
+    lang = case.setdefault("lang", "en-us")
+    dic = load_dict(lang)
+    vocab = sorted({t[3] for t in case["trans"] if t[3]} | ({"go"} if lang == "en-us" else {"de"}))
     dictfile = c.scratch / "c02.dict"
     write_dict(dictfile, dic, vocab)
     (rc, hs, err), (rc2, ms, _) = run_cases(binp, dictfile, [case])
